@@ -102,7 +102,10 @@ func freshOps(t reflect.Type) []concOp {
 		return s
 	}
 	return []concOp{
-		{"fresh marshal T", func() string { s, err := crypthash.Marshal(mk().Interface()); return strip(fmt.Sprintf("%q %v", s, err)) }},
+		{"fresh marshal T", func() string {
+			s, err := crypthash.Marshal(mk().Interface())
+			return strip(fmt.Sprintf("%q %v", s, err))
+		}},
 		{"fresh marshal *T", func() string {
 			pv := reflect.New(t)
 			pv.Elem().Set(mk())
@@ -211,8 +214,14 @@ func freshEmbedOps() []concOp {
 		return v
 	}
 	return []concOp{
-		{"embed marshal A", func() string { s, err := crypthash.Marshal(mkA().Interface()); return fmt.Sprintf("%q %v", s, err != nil) }},
-		{"embed marshal B", func() string { s, err := crypthash.Marshal(mkB().Interface()); return fmt.Sprintf("%q %v", s, err != nil) }},
+		{"embed marshal A", func() string {
+			s, err := crypthash.Marshal(mkA().Interface())
+			return fmt.Sprintf("%q %v", s, err != nil)
+		}},
+		{"embed marshal B", func() string {
+			s, err := crypthash.Marshal(mkB().Interface())
+			return fmt.Sprintf("%q %v", s, err != nil)
+		}},
 		{"embed unmarshal A", func() string {
 			pv := reflect.New(outerA)
 			err := crypthash.Unmarshal("$a$rounds=9$ss$dd", pv.Interface())
@@ -352,7 +361,48 @@ func suiteConc(c *Ctx) {
 		}
 		c.NonTrivial(fmt.Sprintf("round%d:%d:%d", r, n, procs))
 	}
+	// concurrent registrations of DISTINCT prefixes (RegisterHash racing with RegisterHash): none may be
+	// lost, each goroutine must see its own registration at once, and all must still be there afterwards
+	regRounds := 40
+	if c.Thorough() {
+		regRounds = 600
+	}
+	lost := 0
+	for r := 0; r < regRounds; r++ {
+		n := []int{2, 8, 16}[r%3]
+		old := runtime.GOMAXPROCS([]int{2, 4, 16}[r%3])
+		start := make(chan struct{})
+		var wg sync.WaitGroup
+		own := make([]string, n)
+		prefixes := make([]string, n)
+		for g := 0; g < n; g++ {
+			prefixes[g] = fmt.Sprintf("$creg%dx%d$", r, g)
+			wg.Add(1)
+			go func(g int) {
+				defer wg.Done()
+				p := prefixes[g]
+				<-start
+				crypt.RegisterHash(p, regStub(p))
+				own[g] = fmt.Sprint(crypt.Check(p+"abc", "pw"))
+			}(g)
+		}
+		close(start)
+		wg.Wait()
+		runtime.GOMAXPROCS(old)
+		for g := 0; g < n; g++ {
+			exp := fmt.Sprintf("stub %s %sabc", prefixes[g], prefixes[g])
+			later := fmt.Sprint(crypt.Check(prefixes[g]+"abc", "pw"))
+			c.Direct += 2
+			if own[g] != exp || later != exp {
+				lost++
+				c.Fail("concurrent-result-differs", fmt.Sprintf("RegisterHash(%q) concurrent with %d other registrations: Check right after = %q, later = %q, isolated %q", prefixes[g], n-1, own[g], later, exp),
+					map[string]string{"suite": "conc", "op": "concurrent registrations", "goroutines": fmt.Sprint(n)})
+			}
+		}
+	}
 	c.Extra["rounds"] = rounds
+	c.Extra["registration_rounds"] = regRounds
+	c.Extra["lost_registrations"] = lost
 	c.Extra["result_mismatches"] = mismatches
 }
 
